@@ -313,6 +313,54 @@ func c05errors(c *Ctx, p *load.Program, pkgPath, prefix string) {
 		return
 	}
 	acc := accept[0]
+	// every field of the result is assigned on every accepted path, whatever value was decoded:
+	// a store that is skipped for some decoded values (say, "0 means unset") makes the decoded VAA
+	// differ from the encoded one for exactly those values
+	if vt := p.Named(pkgPath, "VAA"); vt != nil {
+		st := vt.Underlying().(*types.Struct)
+		nf := 0
+		for k := 0; k < st.NumFields(); k++ {
+			fld := st.Field(k)
+			nf++
+			defined := facts.Before(acc, func(i ssa.Instruction) bool {
+				isFieldAddr := func(v ssa.Value) bool {
+					for {
+						switch x := v.(type) {
+						case *ssa.Slice:
+							v = x.X
+							continue
+						case *ssa.IndexAddr:
+							v = x.X
+							continue
+						case *ssa.MakeInterface:
+							v = x.X
+							continue
+						case *ssa.ChangeType:
+							v = x.X
+							continue
+						}
+						break
+					}
+					fa, ok := v.(*ssa.FieldAddr)
+					return ok && fieldOfAddr(fa) == fld
+				}
+				switch x := i.(type) {
+				case *ssa.Store:
+					return isFieldAddr(x.Addr)
+				case *ssa.Call:
+					for _, a := range x.Call.Args {
+						if isFieldAddr(a) {
+							return true
+						}
+					}
+				}
+				return false
+			})
+			R.Check(prefix+".mirror", R.Key(prefix+".mirror", "Unmarshal", "assigned:"+fld.Name()), c.rel(p.Pos(instrPos(acc))), "field "+fld.Name()+" of the decoded VAA is assigned on every accepted path, independently of the decoded value", defined,
+				"some accepted path skips the assignment of "+fld.Name()+" (it keeps its zero value for some inputs, so decode(encode(v)) differs from v and re-encodes to different bytes)")
+		}
+		R.Floor(prefix+".mirror.assigned", nf, 11)
+	}
 	fs := facts.At(acc, nil)
 	loops := facts.LoopsOf(um)
 	n := 0
